@@ -404,15 +404,15 @@ def if_rule(run, quick):
     for i, (c, r) in enumerate(zip(cases, res)):
         run.count({"if": c["page"]}, len(c["_more"]) >= 2, "if-plain")
         if r.get("outcome") != "ok":
-            run.property_failure("if:%s:%s" % (r.get("outcome"), r.get("exc", "")), "expand() did not return normally: %r" % (r,), c["page"])
+            run.property_failure("if:%s:%s" % (r.get("outcome"), r.get("exc", "")), "expand() did not return normally: %r" % (r,), {"lib": [], "page": c["page"], "opts": {}, "title": "Tt"})
             continue
         pa = r["page_ast"]
         if len(pa) != 1 or isinstance(pa[0], int) or pa[0][0] != "T" or any(not isinstance(y, int) for a in pa[0][1] for y in a):
-            run.correspondence_break("a generated #if call was not read as one call with plain arguments", c["page"], page_ast=pa)
+            run.correspondence_break("a generated #if call was not read as one call with plain arguments", {"lib": [], "page": c["page"], "opts": {}, "title": "Tt"}, page_ast=pa)
             continue
         first = pa[0][1][0]
         if first[:4] != [35, 105, 102, 58]:
-            run.correspondence_break("a generated #if call does not start with '#if:'", c["page"], page_ast=pa)
+            run.correspondence_break("a generated #if call does not start with the function name", {"lib": [], "page": c["page"], "opts": {}, "title": "Tt"}, page_ast=pa)
             continue
         coq_cases.append("(%s, %s, %s)" % (G.coq_enc(first[4:]), clist(pa[0][1][1:], G.coq_enc, "enc"), cstr(r["out"])))
         idx.append(i)
@@ -423,7 +423,7 @@ def if_rule(run, quick):
     for b in bad:
         c = cases[idx[b]]
         run.property_failure("c04:if-differs-from-its-rule", "expand(%r) gave %r; Model.FlatCall.if_result says otherwise"
-                             % (c["page"], res[idx[b]]["out"]), c["page"])
+                             % (c["page"], res[idx[b]]["out"]), {"lib": [], "page": c["page"], "opts": {}, "title": "Tt"})
     run.extra["if_calls_checked_against_the_rule"] = len(coq_cases)
     # ---- #ifeq
     XS = ["", "a", " a ", "A", "1", "01", "1.0", "a b", "a  b", "\na", "x=y"]
@@ -439,12 +439,12 @@ def if_rule(run, quick):
     for i, (c, r) in enumerate(zip(cases, res)):
         run.count({"ifeq": c["page"]}, c["page"].count("|") >= 3, "ifeq-plain")
         if r.get("outcome") != "ok":
-            run.property_failure("ifeq:%s:%s" % (r.get("outcome"), r.get("exc", "")), "expand() did not return normally: %r" % (r,), c["page"])
+            run.property_failure("ifeq:%s:%s" % (r.get("outcome"), r.get("exc", "")), "expand() did not return normally: %r" % (r,), {"lib": [], "page": c["page"], "opts": {}, "title": "Tt"})
             continue
         pa = r["page_ast"]
         if len(pa) != 1 or isinstance(pa[0], int) or pa[0][0] != "T" or any(not isinstance(y, int) for a in pa[0][1] for y in a) \
                 or pa[0][1][0][:6] != [35, 105, 102, 101, 113, 58]:
-            run.correspondence_break("a generated #ifeq call was not read as one call with plain arguments", c["page"], page_ast=pa)
+            run.correspondence_break("a generated #ifeq call was not read as one call with plain arguments", {"lib": [], "page": c["page"], "opts": {}, "title": "Tt"}, page_ast=pa)
             continue
         coq_cases.append("(%s, %s, %s)" % (G.coq_enc(pa[0][1][0][6:]), clist(pa[0][1][1:], G.coq_enc, "enc"), cstr(r["out"])))
         idx.append(i)
@@ -455,7 +455,7 @@ def if_rule(run, quick):
     for b in bad:
         c = cases[idx[b]]
         run.property_failure("c04:ifeq-differs-from-its-rule", "expand(%r) gave %r; Model.FlatCall.ifeq_result says otherwise"
-                             % (c["page"], res[idx[b]]["out"]), c["page"])
+                             % (c["page"], res[idx[b]]["out"]), {"lib": [], "page": c["page"], "opts": {}, "title": "Tt"})
     run.extra["ifeq_calls_checked_against_the_rule"] = len(coq_cases)
     # ---- #switch with keyed cases
     KEYS = ["a", " a ", "b", "A", "1", "01", "+1", "1.0", "2", "a b", "#default", " #default ", "#DEFAULT", "", "c"]
@@ -469,12 +469,12 @@ def if_rule(run, quick):
     for i, (c, r) in enumerate(zip(cases, res)):
         run.count({"switch": c["page"]}, c["page"].count("|") >= 2, "switch-keyed")
         if r.get("outcome") != "ok":
-            run.property_failure("switch:%s:%s" % (r.get("outcome"), r.get("exc", "")), "expand() did not return normally: %r" % (r,), c["page"])
+            run.property_failure("switch:%s:%s" % (r.get("outcome"), r.get("exc", "")), "expand() did not return normally: %r" % (r,), {"lib": [], "page": c["page"], "opts": {}, "title": "Tt"})
             continue
         pa = r["page_ast"]
         if len(pa) != 1 or isinstance(pa[0], int) or pa[0][0] != "T" or any(not isinstance(y, int) for a in pa[0][1] for y in a) \
                 or pa[0][1][0][:8] != [35, 115, 119, 105, 116, 99, 104, 58] or any(61 not in a for a in pa[0][1][1:]):
-            run.correspondence_break("a generated #switch call was not read as one call with plain keyed cases", c["page"], page_ast=pa)
+            run.correspondence_break("a generated #switch call was not read as one call with plain keyed cases", {"lib": [], "page": c["page"], "opts": {}, "title": "Tt"}, page_ast=pa)
             continue
         kv = lambda a: "(%s, %s)" % (G.coq_enc(a[:a.index(61)]), G.coq_enc(a[a.index(61) + 1:]))
         coq_cases.append("(%s, %s, %s)" % (G.coq_enc(pa[0][1][0][8:]), clist(pa[0][1][1:], kv, "enc * enc"), cstr(r["out"])))
@@ -487,7 +487,7 @@ def if_rule(run, quick):
     for b in bad:
         c = cases[idx[b]]
         run.property_failure("c04:switch-differs-from-its-rule", "expand(%r) gave %r; Model.FlatCall.switch_result says otherwise"
-                             % (c["page"], res[idx[b]]["out"]), c["page"])
+                             % (c["page"], res[idx[b]]["out"]), {"lib": [], "page": c["page"], "opts": {}, "title": "Tt"})
     run.extra["switch_calls_checked_against_the_rule"] = len(coq_cases)
 
 
